@@ -42,9 +42,10 @@ def client_op(kind, variant, who):
         return {"op": "Update", "coll": COLL, "key": KEY, "cb": "setexp"}
     if variant in ("subdoc", "subabs", "subdel"):
         path = {"p1": "a", "p2": "n", "p3": "v"}[who]
-        if variant == "subabs" and kind == "incr":
+        if variant in ("subabs", "subdel") and kind == "incr":
             # (SubdocInsert refuses a missing document on the strength of its read: where that refusal is linearised is
-            # not what the replayed history records, so the absent-document variant uses writes that never refuse)
+            # not what the replayed history records, so the absent-document and the deleted-document variants use writes
+            # that never refuse on the strength of an earlier read - the same holds for "path exists")
             kind = "update"
         if kind == "update":
             return {"op": "WriteSubDoc", "coll": COLL, "key": KEY, "path": path, "val": "s2", "casc": "zero",
